@@ -1,0 +1,174 @@
+//! Read-only observation hooks for external runtime monitors.
+//!
+//! Compiled only with `--cfg turmoil_verif`. Nothing here changes the
+//! behaviour of the stack: the functions read table sizes / a `Debug`
+//! rendering of the installed [`Net`](crate::Net), and the loopback tap
+//! is handed a shared reference to packets that fold back inside
+//! `Kernel::egress` (those never reach `EnterGuard::egress_all`'s
+//! output buffer, so a harness that owns the wire cannot see them
+//! otherwise).
+
+use std::cell::RefCell;
+use std::net::IpAddr;
+
+use crate::kernel::Packet;
+use crate::{HostId, ToIpAddr, CURRENT};
+
+/// Sizes of one host's socket table and its two demux indexes.
+#[derive(Debug, Clone, Copy, PartialEq, Eq, Default)]
+pub struct HostCounts {
+    /// Entries in the socket table (includes listeners, UDP sockets,
+    /// lingering `fd_closed` sockets and `Closed` TCBs that `netstat`
+    /// hides).
+    pub sockets: usize,
+    /// Distinct keys in the binding index.
+    pub bindings: usize,
+    /// Total fds referenced by the binding index (a listener and its
+    /// accepted children share one key).
+    pub binding_fds: usize,
+    /// Entries in the TCP 4-tuple connection index.
+    pub connections: usize,
+}
+
+impl HostCounts {
+    /// `(socket_table_len, binding_index_len, connection_index_len)`.
+    pub fn as_tuple(&self) -> (usize, usize, usize) {
+        (self.sockets, self.bindings, self.connections)
+    }
+}
+
+/// Table sizes of the host owning `host` (hostname or literal IP, same
+/// resolution as [`netstat`](crate::netstat())). Panics if no `Net` is
+/// installed or the host is unknown.
+pub fn host_counts<H: ToIpAddr>(host: H) -> HostCounts {
+    CURRENT.with(|c| {
+        let cell = c.borrow();
+        let net = cell
+            .as_ref()
+            .expect("no Net installed — call Net::enter() first");
+        let ip = host
+            .try_to_ip_addr(&net.dns)
+            .expect("hostname not registered");
+        let id = net
+            .fabric
+            .host_for_ip(ip)
+            .unwrap_or_else(|| panic!("no host registered for {ip}"));
+        net.fabric.kernel(id).verif_counts()
+    })
+}
+
+/// Same as [`host_counts`] but keyed by [`HostId`] (works for hosts
+/// without any public address, e.g. the single host of `fixture::lo`).
+pub fn host_counts_by_id(id: HostId) -> HostCounts {
+    CURRENT.with(|c| {
+        let cell = c.borrow();
+        let net = cell
+            .as_ref()
+            .expect("no Net installed — call Net::enter() first");
+        net.fabric.kernel(id).verif_counts()
+    })
+}
+
+/// Ids of all hosts of the installed `Net`, in registration order.
+pub fn host_ids() -> Vec<HostId> {
+    CURRENT.with(|c| {
+        let cell = c.borrow();
+        let net = cell
+            .as_ref()
+            .expect("no Net installed — call Net::enter() first");
+        net.fabric.host_ids().collect()
+    })
+}
+
+/// `Debug` rendering of the installed `Net` (every kernel, socket and
+/// TCB). Pointer values (`0x…`, as printed for parked `Waker`s) are
+/// replaced by `0x_` so the text is a function of the logical state
+/// only. Intended for hashing states during exhaustive search, not
+/// for assertions.
+pub fn debug_dump() -> String {
+    let raw = CURRENT.with(|c| {
+        let cell = c.borrow();
+        let net = cell
+            .as_ref()
+            .expect("no Net installed — call Net::enter() first");
+        format!("{net:?}")
+    });
+    scrub_pointers(&raw)
+}
+
+fn scrub_pointers(s: &str) -> String {
+    let b = s.as_bytes();
+    let mut out = String::with_capacity(s.len());
+    let mut i = 0;
+    while i < b.len() {
+        if b[i] == b'0' && i + 1 < b.len() && b[i + 1] == b'x' {
+            out.push_str("0x_");
+            i += 2;
+            while i < b.len() && b[i].is_ascii_hexdigit() {
+                i += 1;
+            }
+        } else {
+            // `Debug` output of the stack is ASCII except for payload
+            // escapes, which are ASCII too; copy bytewise on char
+            // boundaries.
+            let ch_len = utf8_len(b[i]);
+            out.push_str(&s[i..i + ch_len]);
+            i += ch_len;
+        }
+    }
+    out
+}
+
+fn utf8_len(first: u8) -> usize {
+    match first {
+        0x00..=0x7f => 1,
+        0xc0..=0xdf => 2,
+        0xe0..=0xef => 3,
+        _ => 4,
+    }
+}
+
+type Tap = Box<dyn FnMut(&[IpAddr], &Packet)>;
+
+thread_local! {
+    static LOOPBACK_TAP: RefCell<Option<Tap>> = const { RefCell::new(None) };
+}
+
+/// Install (or with `None` remove) the loopback tap of this thread.
+///
+/// The tap is called from inside `Kernel::egress` for every packet
+/// whose destination is local to the emitting host, immediately before
+/// the packet is folded back into that host's `deliver`. Arguments:
+/// the emitting host's configured (non-loopback) addresses and the
+/// packet. The installed `Net` is mutably borrowed while the tap runs:
+/// the tap must not call back into `turmoil_net` (no socket calls, no
+/// `netstat`, no hooks) — record and return.
+pub fn set_loopback_tap(tap: Option<Box<dyn FnMut(&[IpAddr], &Packet)>>) {
+    LOOPBACK_TAP.with(|t| *t.borrow_mut() = tap);
+}
+
+pub(crate) fn loopback_tap(addrs: &[IpAddr], pkt: &Packet) {
+    LOOPBACK_TAP.with(|t| {
+        // `try_borrow_mut`: a tap that (against the contract) ends up
+        // re-entering egress must not turn into a double-borrow panic
+        // inside the stack.
+        if let Ok(mut slot) = t.try_borrow_mut() {
+            if let Some(f) = slot.as_mut() {
+                f(addrs, pkt);
+            }
+        }
+    });
+}
+
+#[cfg(test)]
+mod tests {
+    use super::scrub_pointers;
+
+    #[test]
+    fn pointers_are_scrubbed() {
+        assert_eq!(
+            scrub_pointers("Waker { data: 0x7f00dead, vtable: 0x55aa } 10"),
+            "Waker { data: 0x_, vtable: 0x_ } 10"
+        );
+    }
+}
